@@ -3,7 +3,7 @@
 D=$1; shift
 git -C /repo apply $D/patch.diff || exit 2
 for p in "$@"; do
-  out=$(cd /verif && timeout 1800 ./check $p 2>&1 | tail -4 | cut -c1-260)
+  out=$(cd /verif && timeout 1800 ./check $p $EXTRA 2>&1 | tail -4 | cut -c1-260)
   echo "== $p: $(echo "$out" | grep -E 'VIOLATION|^OK' | head -2 | tr '\n' ' ')"
   echo "$out" | grep -E "failing|implementation:|specification:" | head -3
 done
